@@ -24,7 +24,7 @@ def parse40With (hdr : Bytes) (order : List (List Bytes)) (zero : O40)
     | [] => .err Model.eTooShort
     | c :: rest =>
       if c = Model.SLASH then Model.loop4 set (splitSlash rest) zero (Model.flatOrder order)
-      else .err Model.eValue
+      else .err Model.eHeader
   else .err Model.eHeader
 
 /-- the hand-written model is the instance at the regenerated tables and the generated `Set` -/
@@ -241,7 +241,7 @@ theorem parseK_unfold (s : Bytes) : parseK K s =
       | [] => .err Model.eTooShort
       | c :: rest =>
         if c = SLASH then finish (runP K.set ((splitSlash rest).map cutColon) K.zero ord0)
-        else .err Model.eValue
+        else .err Model.eHeader
     else .err Model.eHeader := by
   unfold parseK parse40With Model.hasPrefix
   rw [header_eq, ord0_eq]
@@ -255,7 +255,7 @@ theorem parseK_header_append (r : Bytes) : parseK K (Spec.V4.header ++ r) =
     | [] => .err Model.eTooShort
     | c :: rest =>
       if c = SLASH then finish (runP K.set ((splitSlash rest).map cutColon) K.zero ord0)
-      else .err Model.eValue := by
+      else .err Model.eHeader := by
   rw [parseK_unfold, if_pos (isPrefixOf_append _ _), List.drop_left]
   cases r <;> rfl
 
@@ -291,7 +291,7 @@ theorem parseK_render (w : List Pair) (h : ∀ q ∈ w, Lex q) :
 theorem parseK_cases (s : Bytes) :
     (¬ Spec.V4.header <+: s ∧ parseK K s = .err Model.eHeader) ∨
     (s = Spec.V4.header ∧ parseK K s = .err Model.eTooShort) ∨
-    (∃ c r, s = Spec.V4.header ++ c :: r ∧ c ≠ SLASH ∧ parseK K s = .err Model.eValue) ∨
+    (∃ c r, s = Spec.V4.header ++ c :: r ∧ c ≠ SLASH ∧ parseK K s = .err Model.eHeader) ∨
     (∃ r, s = Spec.V4.header ++ SLASH :: r ∧
       parseK K s = finish (runP K.set ((splitSlash r).map cutColon) K.zero ord0)) := by
   by_cases hp : Spec.V4.header.isPrefixOf s = true
